@@ -88,13 +88,17 @@ def gen(seed, tier):
         'watch_only': rng.random() < 0.15,
         'filter_rpc': rng.choice(['default', 'default', 'absent', 'lowered', 'lowered', 'raised']),
     }
+    if rng.random() < 0.2:
+        # a chain whose protocol parameters differ from the stock ones (a sandbox with custom parameters, a future protocol)
+        cfg['constants'] = {'hard_gas_limit_per_operation': rng.choice(['520000', '2000000', '4160000']), 'hard_storage_limit_per_operation': rng.choice(['60000', '30000'])}
     if key != 'tz4' and rng.random() < 0.08:
         # boundary seeking: drive the chosen fee onto the 2-byte/3-byte boundary of the fee field (16383/16384)
         spec = rng.choice([{'kind': 'contract_call', 'arg': 5, 'entrypoint': 'increment'}, {'kind': 'transaction', 'dest': cs.KT, 'amount': 0, 'param_len': rng.choice([0, 50])},
                            {'kind': 'origination', 'storage_len': rng.choice([0, 128])}])
         specs = [spec] if rng.random() < 0.6 else [spec, gen_spec(rng, 'transaction')]
         steps = [{'op': 'new', 'g': 'g0', 'contents': specs, 'via': 'chain', 'sim_plan': [{'milligas': rng.choice([100_000_000, 150_000_000])}, {'milligas': 1_000_000}][: len(specs)]},
-                 {'op': 'seek_fee', 'g': 'g0', 'target': rng.choice([16384, 16384, 16383, 16385]), 'offsets': [-20, -10, -1, 0, 1, 10, 20]}]
+                 {'op': 'seek_fee', 'g': 'g0', 'target': rng.choice([16384, 16384, 16383, 16385]), 'offsets': [-20, -10, -3, -1, 0, 1, 3, 7, 10, 20],
+                  **({'kw': {'gas_reserve': rng.choice([0, 0, 7, 15, 50])}} if rng.random() < 0.5 else {})}]
         return {'prop': ID, 'cfg': cfg, 'steps': steps}
     enabled = [k for k in KINDS if rng.random() < 0.6] or ['transaction']
     ngroups = rng.choice([1, 1, 2, 3]) if key != 'tz4' else 1
@@ -114,7 +118,7 @@ def gen(seed, tier):
                     if sp.get(fld, 0) > 50:
                         sp[fld] = rng.choice([1, 50])
             specs.append(sp)
-        hard = 1040000 * 1000 // max(1, len(specs))
+        hard = int((cfg.get('constants') or {}).get('hard_gas_limit_per_operation', 1040000)) * 1000 // max(1, len(specs))
         gas_mode = rng.choice(['zero', 'small', 'mid', 'near_limit', 'mixed'])
         plan = []
         for _ in specs:
@@ -227,6 +231,8 @@ def oracle(world, info):
     reserve = 'default' if (g.get('fill_kw') or {}).get('gas_reserve') is None else 'custom'
     if g.get('fills', 0) > 1:
         path = f'{path}(refill)'
+    if world.cfg.get('constants'):
+        path = f'{path}[custom-constants]'
     sig = f'C24/fee-too-low:path={path}:key={world.key_kind}{"(address-only)" if world.cfg.get("watch_only") else ""}:batch={nb}:gas_reserve={reserve}'
     world.violations.append({
         'kind': 'fee', 'sig': sig,
@@ -290,6 +296,10 @@ def simplify(scn):
                 del c['steps'][i]['preset_signature']
                 yield c
     cfg = scn['cfg']
+    if cfg.get('constants'):
+        c = cp()
+        del c['cfg']['constants']
+        yield c
     for k, v in {'counter0': 10, 'chain_name': 'TEZOS_MAINNET', 'pending_key': 'validated', 'watch_only': False, 'filter_rpc': 'default'}.items():
         if cfg.get(k) != v:
             c = cp()
